@@ -488,3 +488,18 @@ func vAssignAdmits(op pAst.AssignOperator, k ast.TypeKind) bool {
     ghostat @before-the-operator-check before if base.Type().Kind() != ast.AnyObjectTypeKind { :: reported = len(self.diagnostics)
     assert @arrow-needs-an-any-object after if base.Type().Kind() != ast.AnyObjectTypeKind { :: base.Type().Kind() == ast.AnyObjectTypeKind || len(self.diagnostics) > ghost(reported)
 @*/
+
+// Calls: only functions can be called, and analysing a call never crashes -
+// also when the callee is unknown (a `spawn` of something that is not a
+// function has no result type to wrap).
+
+/*@ func (self *Analyzer) callExpression
+    serves C03, C05
+    assume-casts
+    assumepre expression, callArgs, SetSpan
+    requires node.Base != nil
+    ensures @scratch-counter ghost(reported) == ghost(reported)
+    ensures @call-kept result.Base != nil && result.ResultType != nil && result.IsSpawn == node.IsSpawn
+    ghostat @before-the-callee-check before switch base.Type().Kind() { :: reported = len(self.diagnostics)
+    assert @only-functions-are-called before if node.IsSpawn && thisExpressionResultsIn != nil { :: base.Type().Kind() == ast.NeverTypeKind || base.Type().Kind() == ast.UnknownTypeKind || base.Type().Kind() == ast.FnTypeKind || len(self.diagnostics) > ghost(reported)
+@*/
